@@ -16,7 +16,7 @@ FAMS = {
     "C07": (["contq", "gates"], ["cont", "gates", "gates2", "live"]),
     "C08": (["order", "retry", "poll"], ["order", "retry", "poll", "tolerance", "gates"]),
     "C09": (["crash", "crash2", "crashretry"], ["crash", "crash2", "crashchk", "crashchkfn", "crashdeep"]),
-    "C10": (["crashfn", "crashchkfn", "crash", "crashretry"], ["crash", "crashfn", "crash2", "crash2fn", "crashchk", "crashchkfn", "livecrash", "livecrashchk", "crashdeepfn"]),
+    "C10": (["crashfn", "crashchkfn", "crash", "crashretry", "crashprecont"], ["crash", "crashfn", "crash2", "crash2fn", "crashchk", "crashchkfn", "crashprecont", "livecrash", "livecrashchk", "crashdeepfn"]),
     "C11": (["aged1"], ["aged1", "aged", "aged2"]),
     "C12": ([], []),
 }
